@@ -257,8 +257,13 @@ impl Listener {
                         errorfds.as_mut_ptr(),
                         &mut timeout,
                     );
-                    if ret != EINTR && ret != EAGAIN {
+                    // select() reports an error as -1 and the reason in errno
+                    if ret >= 0 {
                         break;
+                    }
+                    match ::std::io::Error::last_os_error().raw_os_error() {
+                        Some(e) if e == EINTR || e == EAGAIN => {}
+                        _ => break,
                     }
                 }
                 if !FD_ISSET(fd, readfs.as_mut_ptr()) {
